@@ -85,7 +85,10 @@ Theorem C08_format :
   (forall n, n < 4294967296 ->
      exists a b c d, header Intermediate n = [a; b; c; d] /\ a < 256 /\ b < 256 /\ c < 256 /\ d < 256 /\
                      a + 256 * b + 65536 * c + 16777216 * d = n) /\
-  (forall m, blen m mod 4 <> 0 -> write_msg Abridged m = Err).
+  (forall m, blen m mod 4 <> 0 -> write_msg Abridged m = Err) /\
+  (* a message the format cannot carry (abridged: unaligned or >= 2^24 words; intermediate: >= 2^32 bytes)
+     is refused by WriteMsg, never written with a header that announces another length *)
+  (forall v m, ~ carriable v m -> write_msg v m = Err).
 Proof.
   repeat split.
   - exact write_msg_ok.
@@ -93,6 +96,7 @@ Proof.
   - exact abridged_header_big_value.
   - exact intermediate_header_value.
   - exact write_msg_abridged_unaligned.
+  - exact write_msg_refuses.
 Qed.
 Print Assumptions C08_format.
 
@@ -102,7 +106,11 @@ Example C08_format_boundary :
   header Abridged 512 = [127; 128; 0; 0] /\ header Abridged 0 = [0] /\
   header Abridged 1048576 = [127; 0; 0; 4] /\ header Abridged 67108860 = [127; 255; 255; 255] /\
   header Intermediate 508 = [252; 1; 0; 0] /\ header Intermediate 4294967295 = [255; 255; 255; 255] /\
-  frame Abridged [1; 2; 3; 4] = [1; 1; 2; 3; 4] /\ frame Intermediate [1; 2; 3; 4] = [4; 0; 0; 0; 1; 2; 3; 4].
+  frame Abridged [1; 2; 3; 4] = [1; 1; 2; 3; 4] /\ frame Intermediate [1; 2; 3; 4] = [4; 0; 0; 0; 1; 2; 3; 4] /\
+  (* the largest lengths the formats carry, and the first ones they do not *)
+  write_header Abridged 67108860 = Ok [127; 255; 255; 255] /\ write_header Abridged 67108864 = Err /\
+  write_header Intermediate 4294967295 = Ok [255; 255; 255; 255] /\ write_header Intermediate 4294967296 = Err /\
+  write_header Abridged 16777216 = Ok [127; 0; 0; 64] /\ write_header Intermediate 16777219 = Ok [3; 0; 0; 1].
 Proof. vm_compute. repeat split; reflexivity. Qed.
 
 (* A four-byte frame is surfaced as the signed 32-bit little-endian code it carries, whatever the
